@@ -150,9 +150,10 @@ AuthorityClass(a) ==
                 LET c == LastIn(hp, 1, Len(hp), LAMBDA b : b = COLON)
                     host == IF c = 0 THEN hp ELSE Slice(hp, 1, c - 1)
                     port == IF c = 0 THEN <<>> ELSE DropN(hp, c)
-                IN IF ~AllB(host, IsRegNameByte) THEN "bad"
-                   ELSE IF c # 0 /\ ~AllB(port, IsDigit) THEN "bad"
+                IN IF c # 0 /\ ~AllB(port, IsDigit) THEN "bad"
+                   ELSE IF AnyB(host, LAMBDA b : b \in {91, 93}) THEN "bad"          \* stray bracket
                    ELSE IF Len(host) = 0 THEN "emptyhost"
+                   \* other bytes outside reg-name ("|", "`" ...): whether the URL library takes them is its business
                    ELSE IF at # 0 \/ ~AllB(host, IsPlainHostByte) \/ HasXn(host)
                            \/ (c # 0 /\ (Len(port) = 0 \/ Len(port) > 5 \/ PortTooBig(port)))
                         THEN "exotic" ELSE "ok"
